@@ -42,28 +42,28 @@ theorem step_coherent (c : Cfg) (hR : 0 < c.R) (raw : Bool) (k : Nat) (m : Map) 
 def chainApplicable (c : Cfg) (raw : Bool) (k : Nat) : List EStep → Map → ES → ChainAcc → Orc → Prop
   | [], _, _, _, _ => True
   | s :: rest, m, st, acc, o =>
-    Applicable raw st s ∧ ∀ m' st' acc', chainStep c raw k m st acc s o = .ok (m', st', acc') →
-      chainApplicable c raw k rest m' st' acc' o
+    Applicable raw st s ∧ ∀ m' st' acc', chainStep c raw k m st acc s (o.digit (c.R + 2)) = .ok (m', st', acc') →
+      chainApplicable c raw k rest m' st' acc' (o.shift (c.R + 2))
 
 /-- **Chains of any depth**: the invariant and the handle's coherence are preserved throughout. -/
-theorem chain_coherent (c : Cfg) (hR : 0 < c.R) (raw : Bool) (k : Nat) (o : Orc) :
-    ∀ (steps : List EStep) (m : Map) (st : ES) (acc : ChainAcc),
+theorem chain_coherent (c : Cfg) (hR : 0 < c.R) (raw : Bool) (k : Nat) :
+    ∀ (steps : List EStep) (o : Orc) (m : Map) (st : ES) (acc : ChainAcc),
       Inv c.R m → HandleOK m k st → chainApplicable c raw k steps m st acc o →
       OkOrCap (chainLoop c raw k steps m st acc o) (fun r => Inv c.R r.1 ∧ HandleOK r.1 k r.2.1) := by
   intro steps
   induction steps with
-  | nil => intro m st acc h hok _; simp only [chainLoop, OkOrCap]; exact ⟨h, hok⟩
+  | nil => intro o m st acc h hok _; simp only [chainLoop, OkOrCap]; exact ⟨h, hok⟩
   | cons s rest ih =>
-    intro m st acc h hok happ
+    intro o m st acc h hok happ
     unfold chainLoop
-    have hs := chainStep_ok c hR raw k m st acc s o h hok happ.1
-    cases hr : chainStep c raw k m st acc s o with
+    have hs := chainStep_ok c hR raw k m st acc s (o.digit (c.R + 2)) h hok happ.1
+    cases hr : chainStep c raw k m st acc s (o.digit (c.R + 2)) with
     | error f => rw [hr] at hs; exact hs
     | ok r =>
       obtain ⟨m', st', acc'⟩ := r
       rw [hr] at hs
       simp only [OkOrCap] at hs
-      exact ih m' st' acc' hs.1 hs.2 (happ.2 m' st' acc' hr)
+      exact ih _ m' st' acc' hs.1 hs.2 (happ.2 m' st' acc' hr)
 
 /-- the whole `entry(k)…` / `raw_entry_mut().from_*(k)…` call keeps the invariant — so in particular
     **the key has at most one element afterwards**, whatever the chain did -/
@@ -75,7 +75,7 @@ theorem one_element_per_key (c : Cfg) (hR : 0 < c.R) (raw : Bool) (lh : Nat) (m 
       (∃ seen, r.2.ret = .chain (absOf m k).isSome seen)) := by
   unfold entryChain
   dsimp only
-  have hs := chain_coherent c hR raw k o steps m _ { cost := { hashes := lh } } h (lookup_handle_ok m k kid raw) happ
+  have hs := chain_coherent c hR raw k steps o m _ { cost := { hashes := lh } } h (lookup_handle_ok m k kid raw) happ
   cases hr : chainLoop c raw k steps m _ { cost := { hashes := lh } } o with
   | error f => rw [hr] at hs; exact hs
   | ok r =>
